@@ -453,6 +453,13 @@ pub fn cases(tier: Tier, seed: u64) -> Vec<Case> {
         }
         out.push(conv_case(c, act, i % 5 == 2));
     }
+    // beyond the lattice: strides 4..6 against dilations 2..4 (quick: stride 4 / dilation 2 on both axes and a seeded four)
+    for (i, c) in extended_lattice().into_iter().enumerate() {
+        let always = c.s.0.max(c.s.1) == 4 && c.d.0.max(c.d.1) == 2 && c.p == (0, 0);
+        if full || always || mix(i as u64 ^ seed ^ 0xe01) % 9 == 0 {
+            out.push(conv_case(c, Act::Linear, i % 2 == 1));
+        }
+    }
     // deconvolution
     let dsize = |c: &Cfg| match c.deconv_out() {
         Some((oh, ow)) => c.f * oh * ow * c.ic * c.k.0 * c.k.1,
